@@ -17,7 +17,10 @@ RULE = ("Instances: pedigree shape in {single, two unrelated, trio, quartet, thr
         "founder haplotypes + transmission (a share made inconsistent) or distrusted genotypes with integer phred "
         "triples; recombination costs per column from {0,1,3,10,25}. Oracle: brute-force minimum, witness re-evaluation "
         "and per-column tie rule. Non-trivial = at least two reads share a column and (optimal cost > 0 or a tie is "
-        "flagged or the returned transmission vector contains a recombination). Exhaustive part: every matrix with <= 3 "
+        "flagged or the returned transmission vector contains a recombination). Wide part: 12-20 reads per column (single, trio, "
+        "quartet; planted haplotypes with 0-10 % allele errors), judged without brute force: the returned partition and "
+        "transmission re-evaluate to the reported cost, the cost does not exceed that of the planted solution (0 for error-free "
+        "reads), and no single read move or single-column transmission change lowers it. Exhaustive part: every matrix with <= 3 "
         "reads over <= 3 columns (entries 0/1/absent, weights {1,2}), all genotype vectors, single individual and trio.")
 ASSUMPTIONS = [
     "reads are handed over sorted (ReadSet.sort or pre-sorted), each read's variants sorted, no duplicate position in a read, explicit positions contain every read position (constructor preconditions)",
@@ -300,4 +303,109 @@ class ExhaustivePart:
         check_instance(case, ctx)
 
 
-PARTS = [RandomPart(), DeepPart(), ExhaustivePart()]
+def gen_wide(draw):
+    """coverage 12-20 reads per column (the CLI accepts --internal-downsampling up to 23): too wide for brute force, judged by
+    witness re-evaluation, a planted upper bound and single-flip local optimality"""
+    shape = draw(st.sampled_from(["single", "single", "trio", "quartet"]))
+    n_ind, trios = SHAPES[shape]
+    ncols = draw(st.integers(3, 7))
+    nreads = draw(st.integers(12, {"single": 20, "trio": 18, "quartet": 16}[shape]))
+    children = {c for _, _, c in trios}
+    H = {}
+    for i in range(n_ind):
+        if i not in children:
+            H[i] = [(draw(st.integers(0, 1)), draw(st.integers(0, 1))) for _ in range(ncols)]
+    for f, m, c in trios:
+        a, b = draw(st.integers(0, 1)), draw(st.integers(0, 1))
+        H[c] = [(H[f][k][a], H[m][k][b]) for k in range(ncols)]
+    errors = draw(st.sampled_from([0, 0, 1, 2, 4]))
+    reads, sides = [], []
+    for r in range(nreads):
+        # most reads are long, so that inner columns are covered by (nearly) all reads; a few end before the last column
+        a = draw(st.integers(0, 1)) if draw(st.integers(0, 3)) else draw(st.integers(0, ncols - 2))
+        b = draw(st.integers(max(a + 1, ncols - 3), ncols - 1))
+        ind = draw(st.integers(0, n_ind - 1))
+        side = draw(st.integers(0, 1))
+        vars_ = []
+        for c in range(a, b + 1):
+            al = H[ind][c][side]
+            if errors and draw(st.integers(0, 40)) < errors:
+                al = 1 - al
+            vars_.append([c, al, draw(st.sampled_from([1, 1, 2, 5, 10, 30]))])
+        reads.append({"ind": ind, "vars": vars_})
+        sides.append(side)
+    order = sorted(range(nreads), key=lambda r: reads[r]["vars"][0][0])
+    reads = [reads[r] for r in order]
+    sides = [sides[r] for r in order]
+    gt = [[list(H[i][k]) for k in range(ncols)] for i in range(n_ind)]
+    distrust = draw(st.integers(0, 3)) == 0
+    gl = [[[0 if g == sum(H[i][k]) else draw(st.sampled_from([3, 10, 30])) for g in range(3)] if distrust else [0, 0, 0]
+           for k in range(ncols)] for i in range(n_ind)]
+    recomb = [0] + [draw(st.sampled_from([1, 3, 10, 25])) for _ in range(ncols - 1)]
+    gaps = draw(st.lists(st.integers(1, 30), min_size=ncols, max_size=ncols))
+    return {"shape": shape, "n_ind": n_ind, "trios": trios, "ncols": ncols, "positions": list(itertools.accumulate(gaps)), "reads": reads,
+            "gt": gt, "gl": gl, "distrust": distrust, "recomb": recomb, "use_positions": True, "sort": False, "planted_sides": sides,
+            "errors": errors}
+
+
+class WidePart:
+    name = "wide"
+    budget = {"quick": 2400, "thorough": 60000}
+    guard = False
+
+    def strategy(self, tier):
+        @st.composite
+        def case(draw):
+            return gen_wide(draw)
+        return case()
+
+    def run(self, case, ctx):
+        cost, part, tv, supers = run_impl(case)
+        oracle = PedMEC(case)
+        ncols = case["ncols"]
+        cover = max(len(a) for a in oracle.active)
+        ctx.label("shape-" + case["shape"])
+        ctx.label("max-coverage-%s" % ("12-16" if cover <= 16 else "17-20"))
+        inner = max(len(oracle.active[c]) for c in range(ncols - 1))
+        if len(tv) != ncols or any(p is None for p in part):
+            ctx.violation("wide:shape", "transmission vector %r, partition %r" % (tv, part))
+            return
+        wit = oracle.objective(part, tv)
+        if wit != cost:
+            alt = PedMEC(case, flip=True)
+            if alt.objective(part, tv) != cost:
+                ctx.violation("wide:witness", "coverage %d: returned partition / transmission evaluate to %r (other bit convention %r), reported cost %r" % (
+                    cover, wit, alt.objective(part, tv), cost))
+                return
+            oracle = alt
+        # upper bound: the planted bipartition with any constant transmission is a feasible solution
+        ub = min(o.objective(case["planted_sides"], [t] * ncols) for o in (PedMEC(case), PedMEC(case, flip=True)) for t in range(o.T))
+        if cost > ub:
+            ctx.violation("wide:not-minimal:planted", "coverage %d: reported cost %r, the planted solution costs %r" % (cover, cost, ub))
+        if not case["errors"] and ub == 0 and cost != 0:
+            ctx.violation("wide:errorfree-nonzero", "error-free reads, reported cost %r" % cost)
+        # local optimality: moving one read to the other side, or changing the transmission of one column, never helps
+        for r in range(len(part)):
+            alt_part = list(part)
+            alt_part[r] = 1 - alt_part[r]
+            v = oracle.objective(alt_part, tv)
+            if v < cost:
+                ctx.violation("wide:not-minimal:flip", "coverage %d: moving read %d to the other side lowers the objective from the reported %r to %r" % (cover, r, cost, v))
+                break
+        for c in range(ncols):
+            for t in range(oracle.T):
+                if t != tv[c]:
+                    alt_tv = list(tv)
+                    alt_tv[c] = t
+                    v = oracle.objective(part, alt_tv)
+                    if v < cost:
+                        ctx.violation("wide:not-minimal:transmission", "changing the transmission of column %d to %d lowers the objective from %r to %r" % (c, t, cost, v))
+                        break
+        ctx.nontrivial(inner >= 12 and (cost > 0 or any(len(r["vars"]) < ncols for r in case["reads"])))
+        if inner >= 17:
+            ctx.label("inner-column-covered-by>=17")
+        if cost > 0:
+            ctx.label("cost>0")
+
+
+PARTS = [RandomPart(), DeepPart(), ExhaustivePart(), WidePart()]
